@@ -63,6 +63,15 @@ def payload(t, k, size):
                         range(max(0, size - len(head))))
 
 
+def _imm(v):
+    """the `immediate` argument as the caller spells it: any value is used
+    for its truth (False, 0, None: flush first; True, 1: do not)"""
+    return None if v == 'none' else v
+
+
+IMMEDIATES = [False, True, 0, 1, 'none']
+
+
 def run_scenario(case, schedule):
     """-> result dict (observations only; oracle in check())"""
     from minecraft.networking import connection as C
@@ -167,7 +176,7 @@ def run_scenario(case, schedule):
                         elif kind == 'd':
                             s0 = world.next_seq()
                             try:
-                                conn.disconnect(immediate=bool(op[1]))
+                                conn.disconnect(immediate=_imm(op[1]))
                                 res['ops'].append((ti, 'd', op[1], s0,
                                                    world.next_seq(), None))
                             except Exception as ex:
@@ -267,7 +276,7 @@ def check(ctx, case, schedule, r):
             return
     d_enter = disc[0][3] if disc else None
     d_exit = disc[0][4] if disc else None
-    immediate = bool(disc[0][2]) if disc else False
+    immediate = bool(_imm(disc[0][2])) if disc else False
     for key, o in written.items():
         ti, kind, k, s0, s1, err = o
         must = False
@@ -415,15 +424,15 @@ SMALL = [
      'mode': 'plain'},
     {'programs': [[('q', 10), ('f', 5)], [('q', 7), ('d', True)]],
      'mode': 'plain'},
-    {'programs': [[('f', 70), ('q', 5)], [('f', 64), ('d', False)]],
+    {'programs': [[('f', 70), ('q', 5)], [('f', 64), ('d', 0)]],
      'mode': 'c64'},
     {'programs': [[('f', 20), ('f', 21)], [('f', 22), ('q', 23)]],
      'mode': 'cipher'},
-    {'programs': [[('q', 70), ('d', False)], [('f', 60), ('f', 80)]],
+    {'programs': [[('q', 70), ('d', 'none')], [('f', 60), ('f', 80)]],
      'mode': 'both'},
     {'programs': [[('q', 8), ('q', 9), ('q', 10), ('d', True), ('rc',)]],
      'mode': 'plain'},
-    {'programs': [[('f', 8), ('q', 9), ('d', True), ('rc',)]],
+    {'programs': [[('f', 8), ('q', 9), ('d', 1), ('rc',)]],
      'mode': 'c64'},
     # another thread's forced writes around a reconnect (whoever waits for
     # the write lock during connect() must still be serialised afterwards)
@@ -471,7 +480,7 @@ def program_strategy(with_disc):
                                                             65, 200])))
     base = st.lists(op, min_size=1, max_size=4)
     if with_disc:
-        return st.tuples(base, st.booleans()).map(
+        return st.tuples(base, st.sampled_from(IMMEDIATES)).map(
             lambda t: t[0] + [('d', t[1])])
     return base
 
@@ -487,7 +496,7 @@ def case_strategy(fine):
         return {'programs': progs, 'mode': mode, 'fine': fine}
     return st.tuples(
         st.lists(program_strategy(False), min_size=1, max_size=4),
-        st.one_of(st.none(), st.booleans()),
+        st.one_of(st.none(), st.sampled_from(IMMEDIATES)),
         st.sampled_from(['plain', 'c0', 'c64', 'cipher', 'both']),
         st.sampled_from([0, 0, 0, 40, 320])).map(build)
 
